@@ -38,6 +38,20 @@ type conn struct {
 	server *Server
 	rcv    chan string
 	i      int
+
+	// deliver, when set, receives the messages of this connection instead
+	// of the server's handler
+	deliver func(msg Message)
+}
+
+// received hands a complete message to this connection's receiver.
+func (c *conn) received(msg Message) {
+	if c.deliver != nil {
+		c.deliver(msg)
+		return
+	}
+
+	serverHandler{c.server}.Serve(msg)
 }
 
 func (c *conn) newMessage() *Message {
@@ -147,7 +161,7 @@ func mailFromState(c *conn) stateFn {
 
 		c.PrintfLine("250 Ok : queued as +%x", hasher.Sum(nil))
 
-		serverHandler{c.server}.Serve(*c.msg)
+		c.received(*c.msg)
 
 		c.msg = c.newMessage()
 		return loopState
@@ -162,7 +176,7 @@ func mailFromState(c *conn) stateFn {
 
 		c.PrintfLine("250 Ok : queued as +%x", hasher.Sum(nil))
 
-		serverHandler{c.server}.Serve(*c.msg)
+		c.received(*c.msg)
 
 		c.msg = c.newMessage()
 		return loopState
